@@ -27,7 +27,7 @@ STATIC_TABLE = {
 }
 STATE_WRITERS = {"anchor_store::reset", "anchor_store::with_anchor_context", "<anchor_store::Guard as std::ops::Drop>::drop",
                  "anchor_store::store_rc", "anchor_store::store_arc", "anchor_store::store_rc_recursive", "anchor_store::store_arc_recursive"}
-FALLBACK_WRITERS = {"de_error::MissingFieldLocationGuard::new", "de_error::MissingFieldLocationGuard::replace_location",
+FALLBACK_WRITERS = {"de_error::MissingFieldLocationGuard::new", "de_error::MissingFieldLocationGuard::cleared", "de_error::MissingFieldLocationGuard::replace_location",
                     "<de_error::MissingFieldLocationGuard as std::ops::Drop>::drop"}
 GUARDS = ["anchor_store::Guard", "anchor_store::with_document_scope::ResetGuard", "de_error::MissingFieldLocationGuard"]
 FORGET = re.compile(r"(^|::)(mem::forget|ManuallyDrop::new|Box::leak|mem::ManuallyDrop|forget_unsized)($|::)|ManuallyDrop<.*>::new")
@@ -111,8 +111,15 @@ def rule_reset_complete(ctx, fx, config, prop="C15"):
                 with g.deep():
                     fld = field_of(render(g.sym_place(s_["p"])))
                 v = g.sym_rvalue(s_["rv"])
-                if fld and (v[0] == "const" or (v[0] == "call" and last_seg(v[1]) in ("default", "new", "take"))):
+                fresh = v[0] == "const" or (v[0] == "call" and last_seg(v[1]) in ("default", "new", "take")) or (v[0] == "aggr" and not v[-1])
+                if fld and fresh:
                     sites.setdefault(fld, []).append((g, b))
+                # the whole `store` replaced by a fresh one clears every table in it
+                with g.deep():
+                    whole = re.search(r"\.store\)*$", render(g.sym_place(s_["p"])))
+                if whole and fresh:
+                    for sf in store_fields:
+                        sites.setdefault(sf, []).append((g, b))
     n = 0
     for fld in sorted(fields):
         n += 1
@@ -273,6 +280,25 @@ def run(ctx):
                 ctx.check(okb, "STATE", "C15:STATE:fallback-guard:bound:%s" % f.npath, "the guard is bound to a named local or the fallback_guard field (lives for the scope)",
                           "a MissingFieldLocationGuard is created as a temporary: it restores the previous fallback immediately and the location is lost — or worse, never restored", config, ctx.where(f, b))
         ctx.floor("STATE.fallback-guards", n, 4, config)
+        # the document scope opens with no inherited fallback: a guard that clears the cell (saving the enclosing call's value) is
+        # alive across the user code of every entry point, and dropped on the unwind edge too
+        ds2 = fx.fn("anchor_store::with_document_scope")
+        ucalls = [b for b, t in ds2.calls() if t["f"].get("name") == "call_once" and render(ds2.sym_operand(t["args"][0])) == "f"]
+        clr = [b for b, t in ds2.calls() if fx.callee(t) == "de_error::MissingFieldLocationGuard::cleared"]
+        for ub in ucalls:
+            ctx.check(any(ds2.dominates(cb, ub) for cb in clr), "STATE", "C15:STATE:document-scope:fallback-cleared", "the enclosing call's error-location fallback is set aside before the user code of a (possibly nested) call runs",
+                      "with_document_scope runs the call without setting the thread's error-location fallback aside: a parse nested inside a user Deserialize impl reports its location-less errors at a position of the enclosing document", config, ctx.where(ds2, ub))
+            ctx.check(any("MissingFieldLocationGuard" in x for x in unwind_drops(ds2, ub)), "STATE", "C15:STATE:document-scope:fallback-unwind", "the fallback guard is dropped on the unwind edge of the user call",
+                      "a panicking visitor unwinds past with_document_scope without restoring the enclosing call's fallback", config, ctx.where(ds2, ub))
+        gcl = fx.fn("de_error::MissingFieldLocationGuard::cleared")
+        okc = False
+        for g in fx.family(gcl):
+            for b, t in g.calls():
+                if fx.callee(t) in ("std::cell::Cell::replace", "std::cell::Cell::take"):
+                    with g.deep():
+                        a = render(g.sym_operand(t["args"][1])) if len(t["args"]) > 1 else "None"
+                    okc = okc or "None" in a
+        ctx.check(okc, "STATE", "C15:STATE:fallback-guard:cleared-clears", "MissingFieldLocationGuard::cleared replaces the cell's value by None and keeps the old one", "MissingFieldLocationGuard::cleared no longer empties the fallback cell", config, ctx.where(gcl))
         gd2 = fx.fn("<de_error::MissingFieldLocationGuard as std::ops::Drop>::drop")
         okr = False
         for g in fx.family(gd2):
